@@ -5,7 +5,7 @@
 From Coq Require Import List Arith Bool.
 Import ListNotations.
 From C17 Require Import Sem Progs Static Annot FutRaw.
-From C17 Require Exec ExecLive Ss FutCopy0 Per Owner Sd WitnessR8 Conserve Pool ConserveAll PoolD PoolFin PoolRe PoolN PoolReD PoolReFin WaitQ WaitQAll FutPoll PoolWake PoolWake2 PoolReWake.
+From C17 Require Exec ExecLive Ss FutCopy0 Per Owner Sd WitnessR8 Conserve Pool ConserveAll PoolD PoolFin PoolRe PoolN PoolReD PoolReFin WaitQ WaitQAll FutPoll PoolWake PoolWake2 PoolReWake PoolReUq.
 From Coq Require Import Permutation.
 
 (* Data-race freedom of the model: whenever a thread is about to execute an instruction that reads
@@ -357,8 +357,7 @@ Print Assumptions c17_pool_drained_count.
    m_shutdown is set, nothing is in a worker's hand, and the closures run are exactly -- as a multiset -- the closures
    handed in by the owner or by a running closure, including follow-ups handed in after m_shutdown was set.  A single
    finished worker does not imply an empty queue here; the invariant is "both workers past the shutdown test => queue
-   empty" (c17_poolre_invariant).  Uniqueness of the closure ids is not proved for this scenario, so "exactly once" is
-   equality of multisets. *)
+   empty" (c17_poolre_invariant).  With the uniqueness of the ids: c17_poolre_exactly_once below. *)
 Theorem c17_poolre_joined : forall n r s, reach P (init_poolre n r) s -> (41 <=? pc (thr s 0)) = true ->
   stat (thr s 1) = Done /\ stat (thr s 2) = Done /\ que s PQ = [] /\ var s PSHUT = 1 /\ Conserve.curs s = [] /\
   Permutation (subm s) (map fst (ran s)).
@@ -474,6 +473,20 @@ Theorem c17_poolre_no_deadlock : forall n r s, reach P (init_poolre n r) s -> (2
   que s PQ = [] /\ (pc (thr s 0) <=? 24) = true.
 Proof. exact PoolReWake.poolre_no_deadlock. Qed.
 Print Assumptions c17_poolre_no_deadlock.
+
+(* ---- ThreadPool with two-stage jobs: the closure ids are unique (owner ids = its counter values, follow-up ids = (worker
+   id, that worker's own counter)), in every reachable state of every schedule; hence nothing is run twice, and when
+   JoinAll() has returned every closure handed in -- by the owner or by a running closure, also after shutdown began --
+   has run exactly once. *)
+Theorem c17_poolre_nodup : forall n r s, reach P (init_poolre n r) s -> NoDup (subm s) /\ NoDup (map fst (ran s)).
+Proof. exact PoolReUq.poolre_nodup. Qed.
+Print Assumptions c17_poolre_nodup.
+
+Theorem c17_poolre_exactly_once : forall n r s, reach P (init_poolre n r) s -> stat (thr s 0) = Done ->
+  que s PQ = [] /\ Conserve.curs s = [] /\ NoDup (subm s) /\ NoDup (map fst (ran s)) /\
+  (forall c, In c (subm s) <-> In c (map fst (ran s))) /\ length (ran s) = length (subm s).
+Proof. exact PoolReUq.poolre_exactly_once. Qed.
+Print Assumptions c17_poolre_exactly_once.
 
 (* ---- ExecutorThread where callbacks call Execute again from inside the callback (scenario init_execre), every
    schedule, any number of producers / callbacks / re-submissions: callbacks are conserved (none duplicated, none
